@@ -821,7 +821,7 @@ func (w *nlWorld) sessionOracle() (string, bool) {
 		closed := s.srv.IsClosed()
 		if w.free && w.lclosed && allClosed && !closed {
 			// hand-written path (no predicted state to settle on): give the teardown time before calling it pinned
-			for dl := time.Now().Add(400 * time.Millisecond); !closed && time.Now().Before(dl); closed = s.srv.IsClosed() {
+			for dl := time.Now().Add(2500 * time.Millisecond); !closed && time.Now().Before(dl); closed = s.srv.IsClosed() {
 				time.Sleep(time.Millisecond)
 			}
 		}
